@@ -37,8 +37,14 @@ KEYWORDS = {"if", "for", "while", "switch", "catch", "return", "sizeof", "declty
             "dynamic_cast", "reinterpret_cast", "typeid", "assert", "defined"}
 
 
+GUARD_RE = re.compile(r"^[ \t]*#[ \t]*ifdef[ \t]+MICM_VERIF_HOOKS\b.*?^[ \t]*#[ \t]*endif[^\n]*$", re.S | re.M)
+
+
 def strip(src):
-    """comments, string / char literals and preprocessor lines -> blanks (newlines kept)"""
+    """comments, string / char literals and preprocessor lines -> blanks (newlines kept).
+    Code under `#ifdef MICM_VERIF_HOOKS` (verification instrumentation, compiled out of the library as shipped) is
+    dropped: the footprint is that of the code with the guard off."""
+    src = GUARD_RE.sub(lambda m: "\n" * m.group(0).count("\n"), src)
     out = []
     i, n = 0, len(src)
     while i < n:
